@@ -120,6 +120,7 @@ type Exec struct {
 	litParams   map[string]*Cell
 	curHidden   *Cell
 	renamed     map[string]bool
+	loopAlias   map[ast.Node]map[string]types.Object // per loop: name in an invariant -> the variable read in its place
 	outerHidden *Cell // hidden index of the enclosing range loop ($idxouter)
 	altName     string
 	lazyCaptures bool
@@ -135,7 +136,7 @@ func newExec(prog *Program, pk *packages.Package, fn *types.Func, decl *ast.Func
 	e := &Exec{prog: prog, pkg: pk, fn: fn, decl: decl, contract: c, cells: map[types.Object]*Cell{},
 		oblSeen: map[string]int{}, lets: map[string]Value{}, loopIDs: map[*ast.FuncDecl]map[ast.Node]int{},
 		globalsUsed: map[string]*types.Var{}, globalArrs: map[string]ArrayVal{}, assumptions: map[string]bool{},
-		calleesUsed: map[string]bool{}, boxedPtrs: map[string]PtrVal{}, boxedVals: map[string]Value{}, localMirror: map[*Cell]*Term{}, renamed: map[string]bool{}}
+		calleesUsed: map[string]bool{}, boxedPtrs: map[string]PtrVal{}, boxedVals: map[string]Value{}, localMirror: map[*Cell]*Term{}, renamed: map[string]bool{}, loopAlias: map[ast.Node]map[string]types.Object{}}
 	e.lib = &libModel{}
 	if c != nil {
 		e.tags = c.Tags
